@@ -414,3 +414,56 @@ dharness! {
 fn dia_q_retry_rw3_read_all_free_acq() {
 	t_fault_retry_blocking_all_free::<[RW; 3], 3>(false);
 }}
+
+// ---- the same over the canonical leaf (DESIGN §3.2): the retrying collection's unwind bookkeeping at N = 3 ----
+use super::vleaf::VL;
+
+fn vl3() -> [VL; 3] {
+	[VL::new(0, 0), VL::new(1, 0), VL::new(2, 0)]
+}
+
+/// blocking acquisition of Retry([VL; 3]) with every member free or foreign-held (symbolic) and a one-shot fault in an
+/// ACQUISITION: everything this call acquired is released exactly once, nothing else is released, only the faulted
+/// leaf is killed
+pub fn t_fault_retry_vl3(write: bool, all_free: bool) {
+	let c = RetryingLockCollection::new(vl3());
+	let l = c.child();
+	let st = [&l[0].st, &l[1].st, &l[2].st];
+	if !all_free {
+		let mut i = 0;
+		while i < 3 {
+			st[i].other.set(any_other_rw());
+			i += 1;
+		}
+	}
+	w().fault_class = 1;
+	w().fault_at = any_fault_index(7);
+	let r = if write { unsafe { c.d_raw_write() } } else { unsafe { c.d_raw_read() } };
+	assert!(r.is_err() == (w().faults > 0), "C12_panic_reaches_the_caller_and_nothing_else_does");
+	let mut i = 0;
+	while i < 3 {
+		let faulted = w().faults > 0 && (&l[i].st as *const VState as usize) == w().fault_addr;
+		if faulted {
+			assert!(l[i].killed.get() && st[i].mine.get() == NONE, "C12_lock_whose_operation_panicked_is_killed");
+		} else {
+			assert!(!l[i].killed.get(), "C12_only_the_lock_whose_operation_panicked_is_killed");
+			if r.is_err() {
+				assert!(st[i].mine.get() == NONE && st[i].balanced_and_free(), "C12_every_other_lock_is_released_exactly_once");
+			}
+		}
+		i += 1;
+	}
+	if r.is_err() {
+		assert!(w().held == 0, "C03_nothing_held_when_an_acquisition_unwinds");
+	}
+	kani::cover!(w().faults == 1 && w().d_ops >= 3, "fault_in_a_late_try");
+	kani::cover!(w().faults == 1 && w().d_ops == 1, "fault_in_the_blocking_call");
+	kani::cover!(r.is_ok(), "acquired");
+}
+
+dharness! {
+#[kani::unwind(5)]
+fn dia_q_retry_vl3_write_all_free_acq() { t_fault_retry_vl3(true, true); }}
+dharness! {
+#[kani::unwind(5)]
+fn dia_q_retry_vl3_read_all_free_acq() { t_fault_retry_vl3(false, true); }}
